@@ -9,10 +9,11 @@ PID = "C16"
 DRIVER = [("C16", "TfPwaV.Model.VarsF", "VarsF.handle")]
 LEAN_TARGETS = ["TfPwaV.Props.C16", "TfPwaV.Model.VarsF"]
 PROP_MODULES = ["TfPwaV.Props.C16"]
-ALL_MODULES = ["TfPwaV.Model.Vars", "TfPwaV.Model.VarsF", "TfPwaV.Proofs.Vars", "TfPwaV.Proofs.PolarBound",
+ALL_MODULES = ["TfPwaV.Model.Vars", "TfPwaV.Model.VarsF", "TfPwaV.Proofs.Vars", "TfPwaV.Proofs.VarsFixed", "TfPwaV.Proofs.PolarBound",
                "TfPwaV.Props.C16"]
 ASSUMPTIONS = [
     "histories follow the order a configuration applies operations (create; fix/free; tie; bound; then arbitrary interleavings) — `Vars.WellPhased`; set_fix(unfix=True) after a tie is outside the quantifier",
+    "inv_reachable_patched (the tree after 647ec00) needs `WellNamed`: every tie call lists existing parameters of the right kind (real ties: bound names; cplx ties / set_share_r: complex parameters) and no name is both a real variable and the base c of a complex one (c and c+'r' both bound). Without it the statement is false for the model AND the code (theorem well_named_needed: add_real_var('a'), add_complex_var('a'), ... leaves two free names on one object). All generated histories satisfy WellNamed (counted in coverage.histories_outside_WellNamed)",
     "a complex parameter is tied either as a whole (set_same(cplx=True) / Variable.sameas) or through its parts (set_same of real names, set_share_r), not both, and parameters tied as a whole are in the same coordinate system when tied (the generators respect this; the code does not check it)",
     "pre_trans is empty, complex_vars values are booleans (never lists), no rename_var/remove_var/combineVM in a history, built-in Bound expressions only inside histories (custom expressions: grid check only)",
     "the random source of add_*_var / refresh_vars is an explicit input (tf.random.uniform / tf.random.normal / numpy.random.chisquare are replaced by seeded streams in the harness process); the rejection loop of refresh_vars for (mu, sigma) inside a bound is assumed to accept the first draw; a Bound(None, None) entry in refresh_vars (`break` in hash order) is excluded",
@@ -725,12 +726,38 @@ def is_transc(op, real):
     return False
 
 
+OUTSIDE_WELL_NAMED = []
+
+
+def well_named_op(op, real):
+    """Python rendering of Vars.tieOK (hypothesis of inv_reachable_patched), evaluated on the real object"""
+    k = op["k"]
+    if k not in ("same", "share", "vsameas", "vshare", "vratio"):
+        return True
+    keys = set(real.vm.variables)
+    if any(n + "r" in keys for n in keys):
+        return False
+    is_c = lambda n: n + "r" in keys and n + "i" in keys
+    if k == "same":
+        return all(is_c(n) if op["cplx"] else n in keys for n in op["names"])
+    if k == "share":
+        return all(is_c(n) for n in op["names"])
+    V = real.vars
+    for nm in [op["a"]] + ([op["b"]] if "b" in op else []):
+        for n in shape_names(V[nm].name, V[nm].shape):
+            if not (is_c(n) if V[nm].cplx else n in keys):
+                return False
+    return True
+
+
 def run_history_real(polar0, ops, hook):
     """-> list of (out, dump, tainted, y2x_out), list of model token lists, index map"""
     real = Real(polar0, hook)
     steps, toks, last = [], [], []
     tainted = False
     for op in ops:
+        if not well_named_op(op, real):
+            OUTSIDE_WELL_NAMED.append(op)
         tainted = tainted or is_transc(op, real)
         y2x_out = op["k"] in ("get", "gav") and bool(op.get("vif")) and bool(real.vm.bnd_dic)
         out, t = real.apply(op)
@@ -807,6 +834,7 @@ def correspond(ctx, res):
     n = 90 if ctx.quick else 1200
     lines, runs = [], []
     kinds = {}
+    del OUTSIDE_WELL_NAMED[:]
     with patched_random(hook):
         for i in range(n):
             mode = "safe" if i % 3 == 0 else "wild"
@@ -854,6 +882,7 @@ def correspond(ctx, res):
         "rule": "seeded well-phased histories (5-60 calls; real/complex names, Variable shapes (),(2,),(2,2); 1/3 'safe' (avoid the input classes of the listed findings), 2/3 'wild'; 1/4 without any transcendental op) executed on a real VarsManager and on TfPwaV.Vars.step; canonical state (trainable_vars in order, names, partition of names by object identity, values, trainable flags, complex_vars, same_list, bnd_dic keys, init_val keys, polar) + call result compared after EVERY call; non-trivial = distinct final (sizes, partition) with at least one tie group and one free parameter",
         "exhaustive": False,
         "op_kinds": kinds,
+        "histories_outside_WellNamed": len(OUTSIDE_WELL_NAMED),
         "disagreements": ndis,
         "variant": variant,
     })
@@ -1210,6 +1239,12 @@ def search(ctx, res):
         for key, (polar0, ops) in KNOWN_INPUTS.items():
             hook.rnd = random.Random(1)
             search_history(polar0, ops, hook, res, -1, "known-input")
+        # inputs of past seeded / hand-made mutants: must stay quiet on the registered tree
+        for key, (polar0, ops) in REGRESSION_INPUTS.items():
+            hook.rnd = random.Random(2)
+            nops += len(ops)
+            for k2, _ in search_history(polar0, ops, hook, res, -2, "regression:" + key):
+                counts[k2] = counts.get(k2, 0) + 1
         for i in range(n):
             mode = "safe" if i % 2 == 0 else "wild"
             seed = ctx.seed * 1000003 + 500000 + i
@@ -1266,6 +1301,35 @@ KNOWN_INPUTS = {
 }
 
 
+# Regression notes — library edits this check has been run against (all pass tf_pwa/tests/test_variable.py, all exit 1):
+#  C16-01 (seeded, independent agent): refresh_vars tests self.variables[name].trainable instead of membership in
+#          trainable_vars -> a fixed tie group whose first-listed member was free is re-randomised.
+#          Caught by search frame:refresh (+ correspondence); deterministic input below.
+#  M1 refresh_vars xy branch guards the imaginary part with name_r           -> search frame:refresh + correspondence
+#  M2 xy2rp spreads False to the tie group                                     -> search coordinate:*:value-changed + correspondence
+#  M3 _add_real_var no longer removes the old free entry on re-add            -> search trainable:duplicate-or-unknown
+#  M4 refresh_vars bound loop drops the `not in trainable_vars` skip          -> search frame:refresh
+#  M5 Bound.get_y2x lower clip assigns upper                                  -> search bound:clip + BoundF correspondence
+#  M6 mask_params does not restore the old mask                               -> search mask:not-restored
+REGRESSION_INPUTS = {
+    "C16-01:free-first-fixed-second-refresh": (True, [
+        {"k": "ac", "name": "F", "polar": None, "tr": True, "fix_vals": [1.0, 0.0]},
+        {"k": "ac", "name": "X", "polar": None, "tr": False, "fix_vals": [1.5, 0.5]},
+        {"k": "same", "names": ["F", "X"], "cplx": True},
+        {"k": "refresh", "u": 0.3, "z": 0.1, "chi": 1.0, "init": None, "bound": None},
+        {"k": "rp2xy", "name": "F"},
+        {"k": "refresh", "u": 0.7, "z": -0.2, "chi": 0.5, "init": None, "bound": None}]),
+    "M3:re-add-free": (True, [
+        {"k": "ar", "name": "a", "value": 1.0, "range": None, "tr": True},
+        {"k": "ar", "name": "a", "value": 2.0, "range": None, "tr": True},
+        {"k": "gav", "vif": False}]),
+    "M4:fixed-bounded-refresh": (True, [
+        {"k": "ar", "name": "a", "value": 1.0, "range": None, "tr": False},
+        {"k": "ar", "name": "b", "value": 1.0, "range": None, "tr": True},
+        {"k": "refresh", "u": 0.3, "z": 0.1, "chi": 1.0, "init": {}, "bound": {"a": [0.0, 2.0], "b": [0.0, 2.0]}}]),
+}
+
+
 def replay(ctx, payload):
     r = payload.get("replay", {})
     if "ops" in r:
@@ -1291,7 +1355,7 @@ def replay(ctx, payload):
 
 
 MANIFEST = {
-    "text": "Lean theorems about TfPwaV.Vars.step, a statement-by-statement state-machine model of VarsManager (25 public calls), generic over the value arithmetic (so they hold for IEEE doubles): for EVERY well-phased history (create; fix/free; tie; bound; arbitrary interleavings) the free list has no duplicates, only bound names, and no two free names share a variable object (inv_reachable, unchanged-tree variant; partial for the patched set_same); in EVERY state set_all(list)/set_trans_var/refresh_vars never move a parameter whose object has no free name, set/set_all(dict)/rp2xy/xy2rp move only objects of names they assign (fixed_frame_bulk, frame_targeted); names bound to one object stay bound and read equal through every history of value-level calls (bindings_stable, tied_read_equal); set_all(get_all_dic()) = identity on the whole state when no mask is active (getall_setall_id) and writes the mask otherwise; kernel-decided counterexample that merging two tie groups breaks a tie on the unchanged tree and not after the patch. Over the reals: xy->polar and the sign step of std_polar preserve the complex value with r>=0, _std_polar_angle lands in [-pi,pi) preserving e^{i phi}; for the three built-in Bound forms x2y(y2x y)=y on the range, clipping outside, x2y maps R into the range, dydx and d2ydx2 are the derivatives (HasDerivAt).",
-    "note": "The model is tied to tf_pwa.variable by a differential run: seeded well-phased histories (5-60 calls, real/complex names, Variable shapes) on a real VarsManager and on the model, comparing the canonical state (free list in order, partition of names by object identity, values, flags, complex_vars, same_list, bnd_dic keys, init_val keys, polar) and the call result after EVERY call; bit-exact until the first transcendental op of a history, 1e-12 afterwards; Bound functions and utils.std_polar on grids incl. end points. The harness observes whether the tree has the unpatched or patched set_same / std_polar and selects the model variant. Not proved, only validated: 'counted once' for the patched set_same; that set_same ties everything it lists (holds only after fix_set_same_merge.diff; search checks it on the real object); custom Bound expressions (sympy); TensorFlow/sympy numerics. Findings on the unchanged tree are listed in known_findings.jsonl with patches fix_set_same_merge.diff, fix_std_polar_angle.diff, fix_bound_upper_only.diff.",
+    "text": "Lean theorems about TfPwaV.Vars.step, a statement-by-statement state-machine model of VarsManager (25 public calls), generic over the value arithmetic (so they hold for IEEE doubles): for EVERY well-phased history (create; fix/free; tie; bound; arbitrary interleavings) the free list has no duplicates, only bound names, and no two free names share a variable object (inv_reachable for the pre-fix set_same; inv_reachable_patched for the set_same of commit 647ec00 under the naming hypothesis WellNamed, shown necessary by the kernel-decided counterexample well_named_needed); in every state satisfying the invariant the patched set_same binds all listed names and all members of merged groups to one object (set_same_ties_patched, set_same_ties_patched_cplx); in EVERY state set_all(list)/set_trans_var/refresh_vars never move a parameter whose object has no free name, set/set_all(dict)/rp2xy/xy2rp move only objects of names they assign (fixed_frame_bulk, frame_targeted); names bound to one object stay bound and read equal through every history of value-level calls (bindings_stable, tied_read_equal); set_all(get_all_dic()) = identity on the whole state when no mask is active (getall_setall_id) and writes the mask otherwise; kernel-decided counterexample that merging two tie groups breaks a tie on the unchanged tree and not after the patch. Over the reals: xy->polar and the sign step of std_polar preserve the complex value with r>=0, _std_polar_angle lands in [-pi,pi) preserving e^{i phi}; for the three built-in Bound forms x2y(y2x y)=y on the range, clipping outside, x2y maps R into the range, dydx and d2ydx2 are the derivatives (HasDerivAt).",
+    "note": "The model is tied to tf_pwa.variable by a differential run: seeded well-phased histories (5-60 calls, real/complex names, Variable shapes) on a real VarsManager and on the model, comparing the canonical state (free list in order, partition of names by object identity, values, flags, complex_vars, same_list, bnd_dic keys, init_val keys, polar) and the call result after EVERY call; bit-exact until the first transcendental op of a history, 1e-12 afterwards; Bound functions and utils.std_polar on grids incl. end points. The harness observes whether the tree has the unpatched or patched set_same / std_polar and selects the model variant. Not proved, only validated: that ties made by earlier set_same calls survive later set_same calls when a complex parameter is tied both as a whole and through its parts (excluded from the generators); custom Bound expressions (sympy); TensorFlow/sympy numerics. Five findings of this check were repaired in /repo (c575cdd, e978164, 647ec00; kind 'fixed' in known_findings.jsonl); two remain listed (shared-radius coordinate ops, set_all(get_all_dic()) under a mask).",
     "technique": "Lean 4 proof (induction over operation histories of an executable state-machine model; real analysis for Bound / polar forms) + differential correspondence after every call + model-independent invariant search on the real object",
 }
